@@ -11,7 +11,7 @@ git apply $D/patch.diff || { echo "patch does not apply"; git -C /repo worktree 
 PYTHONPATH=/tmp/lmdbshim /venv/bin/python $D/demo.py > /tmp/st-demo-mut.log 2>&1; echo "demo with change: exit $?"
 cd /verif
 for c in "$@"; do
-  VERIF_REPO=$WT ./check $c --tier ${TIER:-quick} > /tmp/st-check-$c.log 2>&1; echo "check $c: exit $? ; $(grep -c '^VIOLATION' /tmp/st-check-$c.log) violation lines; $(tail -1 /tmp/st-check-$c.log)"
+  VERIF_EVIDENCE_DIR=/tmp/st-evidence VERIF_REPO=$WT ./check $c --tier ${TIER:-quick} > /tmp/st-check-$c.log 2>&1; echo "check $c: exit $? ; $(grep -c '^VIOLATION' /tmp/st-check-$c.log) violation lines; $(tail -1 /tmp/st-check-$c.log)"
   grep -m2 -A1 '^VIOLATION' /tmp/st-check-$c.log | cut -c1-400
 done
 git -C /repo worktree remove --force $WT
